@@ -158,9 +158,10 @@ def path_text(expr, fn_node, defs=None) -> str:
     return unparse(expanded(expr, fn_node, defs if defs is not None else path_aliases(fn_node)))
 
 
-def closer(fn_node, handles: set):
+def closer(fn_node, handles: set, released_by=None):
     """Predicate on CFG nodes: the node releases one of `handles` (texts of the expressions denoting the handle, compared
-    modulo pure aliases): `<h>.close()`, or the exit of `with closing(<h>)` / `with <h>`."""
+    modulo pure aliases): `<h>.close()`, or the exit of `with closing(<h>)` / `with <h>` / `with <cm>(.., <h>, ..)` where
+    `released_by(call)` lists the arguments a context-manager call closes on every way out of its block."""
     defs = path_aliases(fn_node)
     hs = set(handles) | {path_text(ast.parse(h, mode="eval").body, fn_node, defs) for h in handles}
 
@@ -170,6 +171,8 @@ def closer(fn_node, handles: set):
     def releases_item(e):
         if isinstance(e, ast.Call) and call_name(e) == "closing" and len(e.args) == 1:
             return denotes(e.args[0])
+        if isinstance(e, ast.Call) and released_by is not None and any(denotes(a) for a in released_by(e)):
+            return True
         return denotes(e)
 
     def pred(n):
@@ -219,3 +222,113 @@ def truthy_source(expr, fn_node, _depth=0):
                 if any(isinstance(t, ast.Name) and t.id == expr.id for t in tgs) and not falsy_result(a.value, fn_node):
                     return truthy_source(a.value, fn_node, _depth + 1)
     return expr
+
+
+def resolve_callee(p, fn, call):
+    """FuncInfo of the function / method a call in `fn` goes to (`self.m(..)`, `cls.m(..)`, `Class.m(..)`, module-level
+    `f(..)`, `module.f(..)`), or None."""
+    f = call.func
+    if isinstance(f, ast.Attribute) and isinstance(f.value, ast.Name):
+        owner = None
+        if fn.cls is not None and f.value.id in ("self", "cls", fn.self_name):
+            owner = fn.cls
+        else:
+            r = p.resolve_name(fn.module, f.value.id)
+            if r and r[0] == "class":
+                owner = r[1]
+            elif r and r[0] == "module":
+                r2 = p.resolve_name(r[1], f.attr)
+                return r2[1] if r2 and r2[0] == "func" else None
+        if owner is not None:
+            m = owner.lookup(f.attr)
+            if m and hasattr(m[2], "node") and isinstance(m[2].node, (ast.FunctionDef, ast.AsyncFunctionDef)):
+                return m[2]
+        return None
+    if isinstance(f, ast.Name):
+        r = p.resolve_name(fn.module, f.id)
+        return r[1] if r and r[0] == "func" else None
+    return None
+
+
+def is_generator_cm(fi) -> bool:
+    """Decorated with contextlib.contextmanager (a generator used as a context manager)."""
+    return any(unparse(d).split(".")[-1] in ("contextmanager", "asynccontextmanager") for d in fi.node.decorator_list)
+
+
+def own_nodes(fn_node):
+    """AST nodes of a function, not descending into nested functions / classes / lambdas."""
+    stack = list(fn_node.body)
+    while stack:
+        n = stack.pop()
+        yield n
+        if isinstance(n, (ast.FunctionDef, ast.AsyncFunctionDef, ast.ClassDef, ast.Lambda)):
+            continue
+        stack.extend(ast.iter_child_nodes(n))
+
+
+def handlers_around(p, fn, catches, view=lambda f: f, _depth=0):
+    """The exception handlers that intercept an exception (selected by `catches(handler)`) raised in the body of `fn`:
+    `except` clauses of its own try statements, and - for `with <cm>(..):` where <cm> is a generator context manager of the
+    package - the `except` clauses of the try statement its `yield` sits in (an exception leaving the with-body is thrown
+    in at that yield), transitively.  `view(FuncInfo)` gives the form of a callee to look into (normalised view).
+    Returns [(owner FuncInfo as looked into, Try, handler)]."""
+    out = []
+    for n in own_nodes(fn.node):
+        if isinstance(n, ast.Try):
+            out += [(fn, n, h) for h in n.handlers if catches(h)]
+        elif isinstance(n, (ast.With, ast.AsyncWith)) and _depth < 3:
+            for it in n.items:
+                if not isinstance(it.context_expr, ast.Call):
+                    continue
+                callee = resolve_callee(p, fn, it.context_expr)
+                if callee is None or callee.node is fn.node or not is_generator_cm(callee):
+                    continue
+                callee = view(callee)
+                for t in own_nodes(callee.node):
+                    if isinstance(t, ast.Try) and any(isinstance(y, (ast.Yield, ast.YieldFrom)) for b in t.body for y in ast.walk(b)):
+                        out += [(callee, t, h) for h in t.handlers if catches(h)]
+                out += [x for x in handlers_around(p, callee, catches, view, _depth + 1) if x[0] is not callee]
+    return out
+
+
+def protected(g, node, releases) -> bool:
+    """Exceptions raised at `node` are intercepted (try / with frame) and every path out of it, normal or exceptional,
+    passes a release before leaving the function."""
+    if not any(l == "exc" for _, l in node.succ):
+        return False
+    after = reach3(g, [m for m, _ in node.succ], avoid=releases)
+    return g.exit not in after and g.rexit not in after
+
+
+def cm_released_args(p, fn, call, _depth=0):
+    """For `with <cm>(args):` where <cm> is a generator context manager of the package: the argument expressions (of the
+    call, receiver included) that the generator closes on every way out of each of its yields (`try: yield .. finally:
+    <param>.close()`, `with closing(<param>): yield`, ...).  Empty when the callee is not such a generator."""
+    from ..cfg import CFG
+
+    callee = resolve_callee(p, fn, call)
+    if callee is None or callee.node is fn.node or not is_generator_cm(callee) or _depth > 2:
+        return []
+    a = callee.node.args
+    if a.vararg or a.kwarg or any(isinstance(x, ast.Starred) for x in call.args) or any(k.arg is None for k in call.keywords):
+        return []
+    params = [x.arg for x in a.posonlyargs + a.args]
+    binding = {}
+    if callee.cls is not None and callee.kind in ("method", "classmethod") and params and isinstance(call.func, ast.Attribute):
+        recv_is_class = isinstance(call.func.value, ast.Name) and call.func.value.id not in ("self", "cls", fn.self_name or "")
+        if not (callee.kind == "method" and recv_is_class):
+            binding[params[0]] = call.func.value
+            params = params[1:]
+    binding.update(zip(params, call.args))
+    for k in call.keywords:
+        binding[k.arg] = k.value
+    g = CFG(callee.node)
+    yields = [node_of(g, y) for y in own_nodes(callee.node) if isinstance(y, (ast.Yield, ast.YieldFrom))]
+    if not yields or any(y is None for y in yields):
+        return []
+    out = []
+    for prm, arg in binding.items():
+        rel = closer(callee.node, {prm}, released_by=lambda c, callee=callee: cm_released_args(p, callee, c, _depth + 1))
+        if all(protected(g, yn, rel) for yn in yields):
+            out.append(arg)
+    return out
